@@ -284,6 +284,28 @@ def run(R, tier, seed, driver_ok):
                     check_model(R, 'LFDA[repeated point]', est, ret, Xr, dd, dd if nco is None else nco, False, False, case)
                 except Exception as e:
                     R.violation(f'LFDA/fit-raises/{type(e).__name__}/repeated-point', f'LFDA(k={kk_}, embedding_type={emb!r}, n_components={nco}) on data with a point recorded {keff + 2} times raised {type(e).__name__}: {str(e)[:120]}', case)
+    # ---- a constant feature (zero within-class and between-class scatter in that direction): LFDA's generalised eigenproblem
+    #      is singular there.  'plain' and 'orthonormalized' stay finite; the 'weighted' embedding multiplies by the square
+    #      root of an undefined (0/0) eigenvalue — known finding F4
+    for rep in range(1 if not thorough else 4):
+        dd = int(rng.randint(2, 4)); ncl = 2
+        Xk_, yk_ = zoo.blobs(rng, dd, ncl, 10)
+        Xk_ = np.hstack([Xk_, np.full((len(Xk_), 1), float(rng.randint(0, 3)))])
+        for emb in ('plain', 'weighted', 'orthonormalized'):
+            for nco in (None, dd):
+                case = {'est': 'LFDA', 'params': {'embedding_type': emb, 'n_components': nco}, 'X': Xk_, 'y': yk_, 'note': 'the last feature is constant'}
+                R.case(('c03-lfda-constant-feature', emb, nco, Xk_.tobytes().hex()[:40]), True, branch='lfda-constant-feature')
+                try:
+                    with warnings.catch_warnings():
+                        warnings.simplefilter('ignore')
+                        est = LFDA(embedding_type=emb, n_components=nco).fit(Xk_, yk_)
+                    Lk = np.asarray(est.components_)
+                    if Lk.shape != ((dd + 1 if nco is None else nco), dd + 1):
+                        R.violation('LFDA/constant-feature/components-shape', f'LFDA(embedding_type={emb!r}, n_components={nco}) with a constant feature: components_ has shape {Lk.shape}', case)
+                    elif not np.all(np.isfinite(Lk)):
+                        R.violation(f'LFDA/constant-feature/{emb}-nonfinite', f'LFDA(embedding_type={emb!r}, n_components={nco}) on data with a constant feature returns non-finite components_', case)
+                except Exception as e:
+                    R.violation(f'LFDA/constant-feature/fit-raises-{type(e).__name__}', f'LFDA(embedding_type={emb!r}, n_components={nco}) on data with a constant feature raised {type(e).__name__}: {str(e)[:120]}', case)
     # ---- class means on a line (a rank-deficient between-class scatter): 'lda' / 'auto' still give the requested shape
     from metric_learn import NCA, LMNN
     for rep in range(2 if not thorough else 8):
